@@ -84,7 +84,10 @@ DGRAMS = {
                  b' ' * 1004 + b'{"SECoP":"discover"}'],
     'object': [NODE_MSG, b'{}', b'{"SECoP":"Discover"}', b'{"secop":"discover"}', b'{"SECoP":1}', b'{"SECoP":null}',
                b'{"SECoP":["discover"]}', b'{"x":{"SECoP":"discover"}}', b'{"SECoP":"discover "}',
-               b'{"SECoP":{"SECoP":"discover"}}', b'{"discover":"SECoP"}', b'{"SECoP":true}'],
+               b'{"SECoP":{"SECoP":"discover"}}', b'{"discover":"SECoP"}', b'{"SECoP":true}',
+               b'{"SECoP":"discover\\n"}', b'{"SECoP ":"discover"}', b'{"SECOP":"discover","x":1}',
+               b'{"x":"SECoP","y":"discover"}', b'{"request":{"SECoP":"discover"},"SECoP":"node"}',
+               b'{"SECoP":"discovery","client":"scan-tool 2.1"}'],
     'number': [b'1', b'-2.5e3', b'0', b'1e400', b'12345678901234567890'],
     'null': [b'null', b' null '],
     'bool': [b'true', b'false'],
@@ -107,7 +110,16 @@ DGRAMS = {
              b'[' * 1010 + b']' * 14, b'[[1],' + b'[' * 1000],
     'oversized_deep': [b'[' * 1500, b'[' * 2000, b'[' * 4000, b'{"a":' * 800, b'[' * 1030 + b']' * 1030,
                        b'[' * 1600 + b']' * 1600, b'{"a":' * 400 + b'1' + b'}' * 400],
-    'discover_extra': [b'{"SECoP":"discover","x":1}', b'{"a":null,"SECoP":"discover"}'],
+    # requests with other members next to "SECoP": "discover" - must be answered like the bare request
+    'discover_extra': [b'{"SECoP":"discover","x":1}', b'{"a":null,"SECoP":"discover"}',
+                       b'{"SECoP":"discover","client":"scan-tool 2.1","seq":7}',
+                       b'{"seq": 7, "SECoP": "discover", "client": "scan-tool 2.1"}',
+                       b'{"secop":"Discover","SECoP":"discover"}', b'{"SECoP":"discover","secop":"node"}',
+                       b'{"SECoP":"discover","opts":{"SECoP":"node","list":[1,[2,{"a":null}]]}}',
+                       b'{"ports":[10767,8080],"SECoP":"discover","\\u00e9":"\xc3\xa9"}',
+                       b'{"SECoP":"discover","pad":"' + b'p' * 995 + b'"}',          # exactly the buffer size
+                       b'{"pad":"' + b'p' * 600 + b'","SECoP":"discover","q":"' + b'q' * 380 + b'"}',
+                       b' {"SECoP"\n:\t"discover" , "":"" } '],
     'oversized_discover': [b'{"SECoP":"discover"}' + b' ' * 1100, b' ' * 1100 + b'{"SECoP":"discover"}',
                            b'{"SECoP":"discover"}' + b' ' * 1010 + b'junk', b'{"SECoP":"discover"}' + b' ' * 3000],
 }
